@@ -41,8 +41,10 @@ def gen_dl(rng, n):
             ops.append(("DROPDL", rng.randrange(4)))
         elif r < 0.68:
             ops.append(("LOAD", rng.randrange(4), rng.randrange(4), rng.choice(SYMS)))
-        elif r < 0.76:
+        elif r < 0.74:
             ops.append(("COPYSYM", rng.randrange(4), rng.randrange(4)))
+        elif r < 0.78:
+            ops.append((rng.choice(["ASSIGNSYM", "MOVEASSIGNSYM"]), rng.randrange(4), rng.randrange(4)))
         elif r < 0.88:
             ops.append(("DROPSYM", rng.randrange(4)))
         else:
@@ -220,6 +222,17 @@ def judge_dl(ops, lines, S, case):
                 M.hold(i)
                 if dst in M.sym:
                     M.drop(M.sym[dst][0])
+                M.sym[dst] = (i, fn)
+        elif op[0] in ("ASSIGNSYM", "MOVEASSIGNSYM"):
+            dst, src = op[1], op[2]
+            ok = src in M.sym and dst in M.sym
+            if (res == "L ok") != ok:
+                fail("copy-result", what + " -> " + res)
+                return
+            if ok:
+                i, fn = M.sym[src]
+                M.hold(i)
+                M.drop(M.sym[dst][0])
                 M.sym[dst] = (i, fn)
         elif op[0] == "DROPSYM":
             if op[1] in M.sym:
